@@ -406,6 +406,34 @@ def dhash(x):
     return zlib.crc32(repr(x).encode())
 
 
+def run_seeded_corpus(chk, pid=None):
+    """Regression cases kept from seeded changes (tools/seeded_corpus/<PID>/*.pangaea + .json, written by tools/addcorpus.py):
+    every program is evaluated twice in one interpreter and must print what it printed on the unchanged tree."""
+    pid = pid or chk.pid
+    d = os.path.join(ROOT, "tools", "seeded_corpus", pid)
+    if not os.path.isdir(d):
+        return 0
+    names = sorted(f[:-8] for f in os.listdir(d) if f.endswith(".pangaea"))
+    cases = []
+    for n in names:
+        exp = json.load(open(os.path.join(d, n + ".json")))
+        cases.append((n, open(os.path.join(d, n + ".pangaea")).read(), exp))
+    # (programs that read standard input are evaluated once: the second evaluation would find it consumed)
+    outs = harness("eval", [{"src": src, "stdin": exp.get("stdin", ""), "repeat": 1 if exp.get("stdin") else 2} for _, src, exp in cases], shards=min(NCPU, max(1, len(cases))))
+    for (n, src, exp), r in zip(cases, outs):
+        chk.count(("seeded-corpus", n), True)
+        if r["kind"] == "fuel":
+            continue
+        if r.get("nondet") or r["kind"] != exp["kind"] or r.get("out", "") != exp["out"] or (exp["kind"] == "error" and r.get("errk") != exp["errk"]):
+            chk.fail("regression case %s (kept from a seeded change: %s): the program no longer prints what it printed on the unchanged tree: %r vs %r%s" % (
+                n, exp.get("what", "")[:120], (r["kind"], r.get("errk"), r.get("out", "")[-300:]), (exp["kind"], exp.get("errk"), exp["out"][-300:]),
+                " (and differs between two evaluations)" if r.get("nondet") else ""),
+                {"program": src, "stdin": exp.get("stdin", ""), "expected": exp, "impl": {k: r.get(k) for k in ("kind", "errk", "errmsg", "out", "nondet")}},
+                klass=pid + ":corpus:" + n)
+    chk.cov["seeded_corpus_cases"] = len(cases)
+    return len(cases)
+
+
 def shard(seq, n):
     n = max(1, min(n, len(seq)))
     k = (len(seq) + n - 1) // n
